@@ -211,6 +211,7 @@ struct St {
     fileck_golden: u64,
     produced_files_parsed: u64,
     legacy_files: u64,
+    header_pair_checks: u64,
     fuzzed_padding_files: u64,
     small_file_mismatches_refused: u64,
     wide_sweep_refused: u64,
@@ -219,9 +220,18 @@ struct St {
     walk_reopens: u64,
     exact_fill_hits: u64,
     exact_fill_commits: u64,
+    rootdir_files: u64,
+    quirk_files: u64,
 }
 
 fn check_file(ctx: &Ctx, shard: &mut Shard, st: &mut St, golden: &Path, ps: u64, legacy: bool, manifest: &MBucket, scratch: &Scratch) {
+    check_file_with(ctx, shard, st, golden, ps, legacy, manifest, scratch, false, None)
+}
+
+/// `dup_free_ok`: the file comes from the pinned release's double-free quirk - its free list repeats
+/// page ids, which the independent reader reports and which is tolerated for THIS file only.
+#[allow(clippy::too_many_arguments)]
+fn check_file_with(ctx: &Ctx, shard: &mut Shard, st: &mut St, golden: &Path, ps: u64, legacy: bool, manifest: &MBucket, scratch: &Scratch, dup_free_ok: bool, fus: Option<Vec<TxScript>>) {
     let label = format!("{} format, page size {}", if legacy { "legacy" } else { "current" }, ps);
     let bytes = match std::fs::read(golden) {
         Ok(b) => b,
@@ -238,8 +248,9 @@ fn check_file(ctx: &Ctx, shard: &mut Shard, st: &mut St, golden: &Path, ps: u64,
     // 0. the independent reader itself against the pinned code's own manifest
     let rep = fileck::check(&bytes, ps);
     st.fileck_golden += 1;
-    if !rep.ok() {
-        shard.violation(ctx, "golden:independent-reader-rejects-pinned-file", &format!("[{}] {}", label, rep.errors[0]), &replay);
+    let real_errors: Vec<&String> = rep.errors.iter().filter(|e| !(dup_free_ok && (e.contains("listed twice") || e.contains("roles")))).collect();
+    if !real_errors.is_empty() {
+        shard.violation(ctx, "golden:independent-reader-rejects-pinned-file", &format!("[{}] {}", label, real_errors[0]), &replay);
     } else if let Some(d) = rep.contents.diff(manifest, false) {
         shard.violation(ctx, "golden:independent-reader-disagrees-with-manifest", &format!("[{}] {}", label, d), &replay);
     }
@@ -259,7 +270,11 @@ fn check_file(ctx: &Ctx, shard: &mut Shard, st: &mut St, golden: &Path, ps: u64,
             }
         }
         st.opens_verified += 1;
-        db.check().map_err(|e| ("golden:db-check-fails".to_string(), format!("[{}] DB::check on the golden file: {}", label, e)))?;
+        if !dup_free_ok {
+            // (the built-in check rightly complains about a free list with repeated ids; the file must
+            // still open, read and take commits - after the first of which the check must pass again)
+            db.check().map_err(|e| ("golden:db-check-fails".to_string(), format!("[{}] DB::check on the golden file: {}", label, e)))?;
+        }
         Ok(())
     });
     match r {
@@ -284,13 +299,23 @@ fn check_file(ctx: &Ctx, shard: &mut Shard, st: &mut St, golden: &Path, ps: u64,
     let r = util::catch(|| -> Result<(), String> {
         let mut db = exec::open_db(&path, &h).map_err(|e| e.to_string())?;
         let n_extra = if ctx.thorough() { 240 } else { 48 };
-        for (i, t) in follow_ups(n_extra, ps).iter().enumerate() {
+        let scripts = fus.clone().unwrap_or_else(|| follow_ups(n_extra, ps));
+        for (i, t) in scripts.iter().enumerate() {
             exec::exec_tx(&mut run, &db, &path, t, i, &mut model);
             if run.out.aborted {
                 break;
             }
             if t.end == End::Commit {
                 st.followup_commits += 1;
+                // the two header pages alternate: after a commit the other page still holds the commit before it
+                // (also on a file whose headers another version wrote - its next commit must replace the OLDER one)
+                let head = crate::snap::read_prefix(&path, 2 * ps);
+                let ids: Vec<Option<u64>> = (0..2u64).map(|sl| fileck::parse_meta(&head, ps, sl).or_else(|| fileck::parse_meta_legacy(&head, ps, sl)).map(|m| m.tx_id)).collect();
+                st.header_pair_checks += 1;
+                match (ids[0], ids[1]) {
+                    (Some(a), Some(b)) if a.abs_diff(b) == 1 => {}
+                    _ => return Err(format!("after further commit {}: the two header pages hold transactions {:?} and {:?} (expected two valid headers of consecutive commits)", i, ids[0], ids[1])),
+                }
             }
             if t.reopen {
                 drop(db);
@@ -305,7 +330,7 @@ fn check_file(ctx: &Ctx, shard: &mut Shard, st: &mut St, golden: &Path, ps: u64,
     });
     match r {
         Ok(Ok(())) => {}
-        Ok(Err(e)) => shard.violation(ctx, "golden:further-commits:reopen", &format!("[{}] {}", label, e), &replay),
+        Ok(Err(e)) => shard.violation(ctx, if e.contains("two header pages hold") { "golden:further-commits:header-pages-do-not-alternate" } else { "golden:further-commits:reopen" }, &format!("[{}] {}", label, e), &replay),
         Err(p) => shard.violation(ctx, &format!("golden:further-commits-{}", util::panic_signature(&p)), &format!("[{}] panic at {}:{}: {}", label, p.file, p.line, p.msg), &replay),
     }
     if let Some(v) = run.out.violations.first() {
@@ -570,6 +595,62 @@ pub fn run(ctx: &Ctx) -> Shard {
             }
         }
     }
+    // a file the pinned release wrote with its double-free quirk (free list with repeated ids), also with legacy headers
+    for (qi, legacy) in [false, true].iter().enumerate() {
+        if (qi as u64 + 4) % ctx.nshards != ctx.shard {
+            continue;
+        }
+        let src = dir.join("quirk-dupfree-1024.db");
+        let mdoc: Option<serde_json::Value> = std::fs::read(dir.join("quirk-dupfree-1024.manifest.json")).ok().and_then(|b| serde_json::from_slice(&b).ok());
+        if let (Ok(bytes), Some(mdoc)) = (std::fs::read(&src), mdoc) {
+            let manifest = manifest_bucket(&mdoc["contents"]);
+            let bytes = if *legacy { to_legacy(&bytes, 1024) } else { bytes };
+            let fpath = scratch.path(&format!("quirk-{}.db", qi));
+            std::fs::write(&fpath, &bytes).expect("write quirk copy");
+            let put = |h: H, k: &str, tag: u64, len: usize| Op::Put { h, k: K::lit(k.as_bytes()), v: V { tag, len }, how: How::Slice, vhow: How::Slice };
+            let mut fus = Vec::new();
+            for i in 0..12usize {
+                let mut ops = vec![Op::TxGet { k: K::lit(b"keep"), how: How::Slice }, put(0, &format!("k{:03}", i), 40_000 + i as u64, 30 + 90 * (i % 5))];
+                if i % 3 == 0 {
+                    ops.push(Op::TxGetOrCreate { k: K::lit(b"outer"), how: How::Slice });
+                    for j in 0..(4 + i) {
+                        ops.push(put(1, &format!("o{:03}", j), 41_000 + (i * 20 + j) as u64, 250));
+                    }
+                }
+                if i == 7 {
+                    ops.push(Op::TxDelete { k: K::lit(b"outer"), how: How::Slice });
+                }
+                fus.push(TxScript { ops, end: End::Commit, reopen: i % 4 == 1 });
+            }
+            shard.evaluations += 1;
+            let hh = util::fnv64(format!("quirk|{}", legacy).as_bytes());
+            shard.distinct.insert(hh);
+            shard.nontrivial.insert(hh);
+            st.quirk_files += 1;
+            check_file_with(ctx, &mut shard, &mut st, &fpath, 1024, *legacy, &manifest, &scratch, true, Some(fus));
+            let _ = std::fs::remove_file(&fpath);
+        } else {
+            shard.inconclusive("quirk golden file or its manifest missing".into());
+        }
+    }
+    // files whose root directory is a multi-page tree (the golden files have a handful of top-level buckets)
+    for (ri, (ps, n)) in [(1024u64, 40usize), (4096, 150), (5000, 200), (16384, 600)].iter().enumerate() {
+        if (ri as u64 + 2) % ctx.nshards != ctx.shard {
+            continue;
+        }
+        let h = crate::shape::root_dir_history(*ps, *n, 3, n / 2);
+        let path = scratch.fresh("rootdir");
+        let out = exec::run_history(&h, &ExecCfg { verify_after_commit: true, fileck_each_commit: true, ..Default::default() }, &path);
+        let _ = std::fs::remove_file(&path);
+        shard.evaluations += 1;
+        let hh = util::fnv64(format!("rootdir|{}|{}", ps, n).as_bytes());
+        shard.distinct.insert(hh);
+        shard.nontrivial.insert(hh);
+        st.rootdir_files += 1;
+        if let Some(v) = out.violations.first() {
+            shard.violation(ctx, &format!("layout:multi-page-root-directory:{}", v.sig), &format!("[page size {}] {} :: {}", ps, h.origin, v.detail), &serde_json::json!({"kind": "history", "history": h}));
+        }
+    }
     // files whose free list exactly fills its page run
     for (pi, (ps, hits)) in [(1024u64, 2u64), (5000, 1), (4096, 1)].iter().enumerate() {
         if (pi as u64 + 13) % ctx.nshards != ctx.shard || (!ctx.thorough() && pi >= 2) {
@@ -686,12 +767,15 @@ pub fn run(ctx: &Ctx) -> Shard {
     shard.count("legacy_files_with_1_to_5_commits_checked", st.legacy_commit_count_files);
     shard.count("free_list_walk_commits(every length around a full page, reopened after each)", st.walk_commits);
     shard.count("free_list_walk_reopens", st.walk_reopens);
+    shard.count("files_with_a_multi_page_root_directory_written_reopened_and_parsed", st.rootdir_files);
+    shard.count("pinned_release_files_with_repeated_free_list_ids_checked", st.quirk_files);
     shard.count("files_whose_free_list_exactly_fills_its_pages_reopened", st.exact_fill_hits);
     shard.count("commits_made_to_steer_the_free_list_to_an_exact_fill", st.exact_fill_commits);
     shard.count("golden_files_with_garbage_in_uninitialised_padding", st.fuzzed_padding_files);
     shard.count("small_file_page_size_mismatches_refused", st.small_file_mismatches_refused);
     shard.count("golden_files_checked", st.files);
     shard.count("legacy_header_files_checked", st.legacy_files);
+    shard.count("header_pairs_checked_for_alternation_after_further_commits", st.header_pair_checks);
     shard.count("opens_fully_verified_against_manifest", st.opens_verified);
     shard.count("further_commits_on_golden_files", st.followup_commits);
     shard.count("mismatching_page_sizes_refused", st.mismatched_sizes_refused);
